@@ -231,9 +231,9 @@ theorem simpleItem_noCh : ∀ (e : Item) (n : Nat), SimpleItem e → CmdsNoCh x 
       rcases hcase with ⟨h, _⟩ | ⟨h, _⟩ | ⟨h, _⟩ <;> rw [h] <;> exact noCh_lit hx _ (by simp)
     have hkids : CmdsNoCh x (elemsCmds (n + 1) kids true 0 0) := by
       rcases hcase with ⟨_, _, hk⟩ | ⟨_, _, hk⟩ | ⟨_, _, _, hk⟩
-      · exact simpleKids_noCh kids (n + 1) true 0 hk
-      · exact simpleValues_noCh kids (n + 1) true 0 hk
-      · exact simpleMembers_noCh kids (n + 1) true 0 hk
+      · exact simpleKids_noCh kids (n + 1) true 0 0 hk
+      · exact simpleValues_noCh kids (n + 1) true 0 0 hk
+      · exact simpleMembers_noCh kids (n + 1) true 0 0 hk
     apply CmdsNoCh.append _ (cmdsNoCh_gap x)
     split
     · apply cmdsNoCh_line
@@ -247,38 +247,38 @@ theorem simpleItem_noCh : ∀ (e : Item) (n : Nat), SimpleItem e → CmdsNoCh x 
       simp only [String.toList_append]
       exact NoCh.append hx (NoCh.append hx (NoCh.append hx (NoCh.append hx hkw (noCh_lit hx " " (by simp)))
         (noCh_ident hx hname)) (noCh_lit hx " {" (by simp))) (noCh_lit hx "" (by simp))
-theorem simpleKids_noCh : ∀ (es : List Item) (n : Nat) (first : Bool) (lt : Nat), SimpleKids es →
-    CmdsNoCh x (elemsCmds n es first 0 lt)
-  | [], _, _, _, _ => by intro c hc; simp [elemsCmds] at hc
-  | e :: r, n, first, lt, h => by
+theorem simpleKids_noCh : ∀ (es : List Item) (n : Nat) (first : Bool) (le0 lt : Nat), SimpleKids es →
+    CmdsNoCh x (elemsCmds n es first le0 lt)
+  | [], _, _, _, _, _ => by intro c hc; simp [elemsCmds] at hc
+  | e :: r, n, first, le0, lt, h => by
     simp only [SimpleKids] at h
-    rw [elemsCmds_cons_unloc n e r first lt (Plain.loc e (SimpleItem.plain e h.1))]
+    rw [elemsCmds_cons_unloc n e r first le0 lt]
     exact CmdsNoCh.append (CmdsNoCh.append (cmdsNoCh_gapIf x _) (simpleItem_noCh e n h.1))
-      (simpleKids_noCh r n false e.typeOrder h.2)
-theorem simpleValues_noCh : ∀ (es : List Item) (n : Nat) (first : Bool) (lt : Nat), SimpleValues es →
-    CmdsNoCh x (elemsCmds n es first 0 lt)
-  | [], _, _, _, _ => by intro c hc; simp [elemsCmds] at hc
-  | .field f :: r, n, first, lt, h => by
+      (simpleKids_noCh r n false e.loc.endLine e.typeOrder h.2)
+theorem simpleValues_noCh : ∀ (es : List Item) (n : Nat) (first : Bool) (le0 lt : Nat), SimpleValues es →
+    CmdsNoCh x (elemsCmds n es first le0 lt)
+  | [], _, _, _, _, _ => by intro c hc; simp [elemsCmds] at hc
+  | .field f :: r, n, first, le0, lt, h => by
     simp only [SimpleValues] at h
-    rw [elemsCmds_cons_unloc n (.field f) r first lt h.1.2.1]
-    refine CmdsNoCh.append (CmdsNoCh.append (cmdsNoCh_gapIf x _) ?_) (simpleValues_noCh r n false _ h.2)
+    rw [elemsCmds_cons_unloc n (.field f) r first le0 lt]
+    refine CmdsNoCh.append (CmdsNoCh.append (cmdsNoCh_gapIf x _) ?_) (simpleValues_noCh r n false _ _ h.2)
     simp only [itemCmds]
     rw [fieldCmds_value n f h.1]
     exact cmdsNoCh_line x _ (noCh_valueLine hx n f h.1)
-  | .rpc _ _ _ _ _ _ :: _, _, _, _, h => by simp [SimpleValues] at h
-  | .block _ _ _ _ _ _ _ :: _, _, _, _, h => by simp [SimpleValues] at h
-theorem simpleMembers_noCh : ∀ (es : List Item) (n : Nat) (first : Bool) (lt : Nat), SimpleMembers es →
-    CmdsNoCh x (elemsCmds n es first 0 lt)
-  | [], _, _, _, _ => by intro c hc; simp [elemsCmds] at hc
-  | .field f :: r, n, first, lt, h => by
+  | .rpc _ _ _ _ _ _ :: _, _, _, _, _, h => by simp [SimpleValues] at h
+  | .block _ _ _ _ _ _ _ :: _, _, _, _, _, h => by simp [SimpleValues] at h
+theorem simpleMembers_noCh : ∀ (es : List Item) (n : Nat) (first : Bool) (le0 lt : Nat), SimpleMembers es →
+    CmdsNoCh x (elemsCmds n es first le0 lt)
+  | [], _, _, _, _, _ => by intro c hc; simp [elemsCmds] at hc
+  | .field f :: r, n, first, le0, lt, h => by
     simp only [SimpleMembers] at h
-    rw [elemsCmds_cons_unloc n (.field f) r first lt h.1.1.2.1]
-    refine CmdsNoCh.append (CmdsNoCh.append (cmdsNoCh_gapIf x _) ?_) (simpleMembers_noCh r n false _ h.2)
+    rw [elemsCmds_cons_unloc n (.field f) r first le0 lt]
+    refine CmdsNoCh.append (CmdsNoCh.append (cmdsNoCh_gapIf x _) ?_) (simpleMembers_noCh r n false _ _ h.2)
     simp only [itemCmds]
     rw [fieldCmds_simple n f h.1.1]
     exact cmdsNoCh_line x _ (noCh_fieldLine hx n f h.1.1)
-  | .rpc _ _ _ _ _ _ :: _, _, _, _, h => by simp [SimpleMembers] at h
-  | .block _ _ _ _ _ _ _ :: _, _, _, _, h => by simp [SimpleMembers] at h
+  | .rpc _ _ _ _ _ _ :: _, _, _, _, _, h => by simp [SimpleMembers] at h
+  | .block _ _ _ _ _ _ _ :: _, _, _, _, _, h => by simp [SimpleMembers] at h
 end
 
 end
@@ -417,11 +417,11 @@ theorem topLevel_eof (F : Nat) (l : Nat) (more : List PTok) (a : Acc) :
 theorem inner_message (kids : List Item) (hk : SimpleKids kids) (n s G : Nat) (more : List PTok)
     (hG : kids.length + 1 + needAll kids ≤ G) :
     messageBody G (toksOf (elemsCmds (n + 1) kids true 0 0) false (s + 1) ++
-        T (.sym '}') (rdKids kids true 0 (s + 1) false).2 :: more) [] [] =
-      some ([], (rdKids kids true 0 (s + 1) false).1, (rdKids kids true 0 (s + 1) false).2, more) := by
+        T (.sym '}') (rdKids kids true 0 0 (s + 1) false).2 :: more) [] [] =
+      some ([], (rdKids kids true 0 0 (s + 1) false).1, (rdKids kids true 0 0 (s + 1) false).2, more) := by
   obtain ⟨F'', hGe⟩ : ∃ F'', G = (F'' + 1) + kids.length := ⟨G - kids.length - 1, by omega⟩
-  have hkids := mb_kids kids hk (n + 1) true 0 (s + 1) false (F'' + 1) [] []
-    (T (.sym '}') (rdKids kids true 0 (s + 1) false).2 :: more) rfl (by omega)
+  have hkids := mb_kids kids hk (n + 1) true 0 0 (s + 1) false (F'' + 1) [] []
+    (T (.sym '}') (rdKids kids true 0 0 (s + 1) false).2 :: more) rfl (by omega)
   rw [hGe, hkids, messageBody_close]
   simp
 
@@ -429,11 +429,11 @@ theorem inner_message (kids : List Item) (hk : SimpleKids kids) (n s G : Nat) (m
 theorem inner_enum (kids : List Item) (hk : SimpleValues kids) (n s G : Nat) (more : List PTok)
     (hG : kids.length + 1 ≤ G) :
     enumBody G (toksOf (elemsCmds (n + 1) kids true 0 0) false (s + 1) ++
-        T (.sym '}') (rdKids kids true 0 (s + 1) false).2 :: more) [] [] =
-      some ([], fieldsOf (rdKids kids true 0 (s + 1) false).1, (rdKids kids true 0 (s + 1) false).2, more) := by
+        T (.sym '}') (rdKids kids true 0 0 (s + 1) false).2 :: more) [] [] =
+      some ([], fieldsOf (rdKids kids true 0 0 (s + 1) false).1, (rdKids kids true 0 0 (s + 1) false).2, more) := by
   obtain ⟨F'', hGe⟩ : ∃ F'', G = (F'' + 1) + kids.length := ⟨G - kids.length - 1, by omega⟩
-  have hvals := enumBody_values kids hk (n + 1) true 0 (s + 1) false (F'' + 1) [] []
-    (T (.sym '}') (rdKids kids true 0 (s + 1) false).2 :: more) rfl
+  have hvals := enumBody_values kids hk (n + 1) true 0 0 (s + 1) false (F'' + 1) [] []
+    (T (.sym '}') (rdKids kids true 0 0 (s + 1) false).2 :: more) rfl
   rw [hGe, hvals, enumBody_close]
   simp
 
@@ -458,7 +458,7 @@ theorem top_item : ∀ (e : Item), SimpleItem e → IsBlock e → ∀ (s G : Nat
       · exact Or.inr h
       · exact (hb h.2.1).elim
     have htr : trailOf (toksOf (elemsCmds (0 + 1) kids true 0 0) false (s + 1) ++
-        T (.sym '}') (rdKids kids true 0 (s + 1) false).2 :: more) = "" := trailOf_toksOf _ _ _ _ rfl
+        T (.sym '}') (rdKids kids true 0 0 (s + 1) false).2 :: more) = "" := trailOf_toksOf _ _ _ _ rfl
     have htr0 : trailOf (T (.sym '}') s :: more) = "" := rfl
     rcases hcase with ⟨hkw, ht, hk⟩ | ⟨hkw, ht, hk⟩
     · subst hkw ht
@@ -503,19 +503,19 @@ def AllBlocks : List Item → Prop
   | e :: r => IsBlock e ∧ AllBlocks r
 
 theorem top_items : ∀ (es : List Item), SimpleKids es → AllBlocks es →
-    ∀ (first : Bool) (lt L : Nat) (g : Bool) (F : Nat) (a : Acc) (rest : List PTok), trailOf rest = "" → needAll es ≤ F →
-    topLevel (F + es.length) (toksOf (elemsCmds 0 es first 0 lt) g L ++ rest) a =
-      topLevel F rest { a with items := a.items ++ (rdKids es first lt L g).1 }
-  | [], _, _, first, lt, L, g, F, a, rest, _, _ => by
+    ∀ (first : Bool) (le0 lt L : Nat) (g : Bool) (F : Nat) (a : Acc) (rest : List PTok), trailOf rest = "" → needAll es ≤ F →
+    topLevel (F + es.length) (toksOf (elemsCmds 0 es first le0 lt) g L ++ rest) a =
+      topLevel F rest { a with items := a.items ++ (rdKids es first le0 lt L g).1 }
+  | [], _, _, first, le0, lt, L, g, F, a, rest, _, _ => by
     simp [elemsCmds, toksOf_nil, rdKids]
-  | e :: r, h, hb, first, lt, L, g, F, a, rest, hr, hF => by
+  | e :: r, h, hb, first, le0, lt, L, g, F, a, rest, hr, hF => by
     simp only [SimpleKids] at h
     simp only [AllBlocks] at hb
     simp only [needAll] at hF
-    rw [toksOf_elems_cons 0 e r first lt g L (SimpleItem.plain e h.1)]
+    rw [toksOf_elems_cons 0 e r first le0 lt g L (SimpleItem.plain e h.1)]
     simp only [List.length_cons, List.append_assoc]
     rw [← Nat.add_assoc, top_item e h.1 hb.1 _ (F + r.length) a _ (trailOf_toksOf _ _ _ _ hr) (by omega)]
-    rw [top_items r h.2 hb.2 false _ _ _ F _ rest hr (by omega)]
+    rw [top_items r h.2 hb.2 false _ _ _ _ F _ rest hr (by omega)]
     simp only [rdKids, List.append_assoc, List.cons_append, List.nil_append, startLine, gapBefore]
     rfl
 
